@@ -444,6 +444,22 @@ mod helpers {
     }
 }
 
+/// Verification hooks: public wrappers around the private lexer helpers so that
+/// counterexamples found on the MIR can be replayed natively. Compiled only with
+/// `--cfg wac_verif`.
+#[cfg(wac_verif)]
+pub mod verif {
+    /// Calls the private `helpers::block_comment_length`.
+    pub fn block_comment_length(bytes: &[u8]) -> Option<usize> {
+        super::helpers::block_comment_length(bytes)
+    }
+
+    /// Calls the private `detect_invalid_input`.
+    pub fn detect_invalid_input(source: &str) -> Result<(), (super::Error, miette::SourceSpan)> {
+        super::detect_invalid_input(source)
+    }
+}
+
 /// The result type for the lexer.
 pub type LexerResult<T> = Result<T, Error>;
 
